@@ -303,8 +303,8 @@ package lfs
 //@ func (*catFileBatchCheckScanner).next
 //@   props C03
 //@   requires @inv s != nil && s.s != nil
-//@   ensures str_indexbyte(lasttext(), 32) != -1 && len(lasttext()) >= str_indexbyte(lasttext(), 32) + 6 && bsub(lasttext(), str_indexbyte(lasttext(), 32) + 1, str_indexbyte(lasttext(), 32) + 5) == "blob" && atoi_ok(bsub(lasttext(), str_indexbyte(lasttext(), 32) + 6, len(lasttext()))) && str_to_int(bsub(lasttext(), str_indexbyte(lasttext(), 32) + 6, len(lasttext()))) < s.limit ==> result0 == bsub(lasttext(), 0, str_indexbyte(lasttext(), 32)) && result1 == ""
-//@   ensures str_indexbyte(lasttext(), 32) != -1 && len(lasttext()) >= str_indexbyte(lasttext(), 32) + 6 && bsub(lasttext(), str_indexbyte(lasttext(), 32) + 1, str_indexbyte(lasttext(), 32) + 5) == "blob" && atoi_ok(bsub(lasttext(), str_indexbyte(lasttext(), 32) + 6, len(lasttext()))) && str_to_int(bsub(lasttext(), str_indexbyte(lasttext(), 32) + 6, len(lasttext()))) >= s.limit ==> result0 == "" && result1 == bsub(lasttext(), 0, str_indexbyte(lasttext(), 32))
+//@   ensures str_indexbyte(lasttext(s.s), 32) != -1 && len(lasttext(s.s)) >= str_indexbyte(lasttext(s.s), 32) + 6 && bsub(lasttext(s.s), str_indexbyte(lasttext(s.s), 32) + 1, str_indexbyte(lasttext(s.s), 32) + 5) == "blob" && atoi_ok(bsub(lasttext(s.s), str_indexbyte(lasttext(s.s), 32) + 6, len(lasttext(s.s)))) && str_to_int(bsub(lasttext(s.s), str_indexbyte(lasttext(s.s), 32) + 6, len(lasttext(s.s)))) < s.limit ==> result0 == bsub(lasttext(s.s), 0, str_indexbyte(lasttext(s.s), 32)) && result1 == ""
+//@   ensures str_indexbyte(lasttext(s.s), 32) != -1 && len(lasttext(s.s)) >= str_indexbyte(lasttext(s.s), 32) + 6 && bsub(lasttext(s.s), str_indexbyte(lasttext(s.s), 32) + 1, str_indexbyte(lasttext(s.s), 32) + 5) == "blob" && atoi_ok(bsub(lasttext(s.s), str_indexbyte(lasttext(s.s), 32) + 6, len(lasttext(s.s)))) && str_to_int(bsub(lasttext(s.s), str_indexbyte(lasttext(s.s), 32) + 6, len(lasttext(s.s)))) >= s.limit ==> result0 == "" && result1 == bsub(lasttext(s.s), 0, str_indexbyte(lasttext(s.s), 32))
 
 // C05: what prune retains because it is unpushed or stashed must not depend
 // on the include/exclude path filter (an excluded path still has its only
